@@ -38,11 +38,15 @@ D_A2 = {"name": "a", "version": "2.0", "source": {"subdir": "libdir"}, "script":
         "head": "<link rel=\"icon\"/>"}
 D_URL = {"name": "u", "version": "0.1.5", "source": {"href": "https://cdn.example/u/"},
          "script": [{"src": "u.js"}], "stylesheet": [{"href": "u.css", "media": "print"}]}
+D_URL2 = {"name": "u2", "version": "1", "source": {"href": "https://cdn.example/u/"},
+          "script": [{"src": "u.js"}], "meta": [{"name": "am", "content": "ac"}], "head": "<link rel=\"icon\"/>"}
 HC_TAG = ["HC", [E("title", True, [T("Tt")])]]
 HC_TXT = ["HC", [T("plain & text")]]
 ITEMS = [T("txt"), B([T("b")]), I([T("i")]), ["DI", D_A1], ["DI", D_A2], ["DI", D_URL], HC_TAG, HC_TXT,
          B([["DI", D_A1], I([["DI", D_URL], T("n")])]), ["X", B([T("xb"), ["DI", D_A2]])],
          E("img", False, [["DI", D_URL]], [["src", "i.png"]]),
+         # shares its script URL with D_URL, its meta with D_A1 and its head markup with D_A2
+         ["DI", D_URL2],
          # a <body> / <html> tag that is NOT the sole content is ordinary content
          E("body", True, [T("inner-body"), ["DI", D_A1]]),
          E("html", True, [E("body", True, [T("inner-html")])], [["lang", "xx"]]),
@@ -195,7 +199,9 @@ def structural(out, resolved, user_head_specs, viols):
     for i in resolved:
         for s in (i.get("script") or []):
             n = sum(1 for v in in_head if v.endswith("/" + s["src"]) or v == s["src"])
-            if n != 1:
+            n_exp = sum(1 for j in resolved for t in (j.get("script") or [])
+                        if t["src"] == s["src"] and (j is i or j.get("source") == i.get("source") or True))
+            if n != n_exp:
                 viols.append(("struct:dep-markup-count", f"script {s['src']} of {i['name']} appears {n} times in <head>",
                               {"observed": in_head}))
 
